@@ -315,21 +315,22 @@ func (w *world) qualPhase(r *ev.Run, masksPer, stride int) {
 }
 
 func qualGuards(r *ev.Run) {
-	r.RequireAtLeast("qual_families:mysql", 60)
-	r.RequireAtLeast("qual_families:postgresql", 60)
-	r.RequireAtLeast("qual_relatives", 400)
+	r.RequireAtLeast("qual_families:mysql", 50)
+	r.RequireAtLeast("qual_families:postgresql", 40)
+	r.RequireAtLeast("qual_relatives", 300)
 	r.RequireSetAtLeast("qual_relative_kinds", len(censorgen.QualKinds))
 	r.RequireSetAtLeast("qual_occurrence_classes", 8)
-	r.RequireAtLeast("qual_pattern_configs_with_qualified_pattern", 1000)
-	r.RequireAtLeast("qual_pattern_self_match_decided_qualified", 1000)
-	r.RequireAtLeast("qual_pattern_no_match_decided:allow", 2000)
-	r.RequireAtLeast("qual_pattern_no_match_decided:deny", 300)
-	r.RequireAtLeast("qual_pattern_no_match_decided:mysql", 1000)
-	r.RequireAtLeast("qual_pattern_no_match_decided:postgresql", 1000)
+	r.RequireAtLeast("qual_pattern_configs_with_qualified_pattern", 2000)
+	r.RequireAtLeast("qual_pattern_self_match_decided_qualified", 2000)
+	r.RequireAtLeast("qual_pattern_no_match_decided:allow", 4000)
+	r.RequireAtLeast("qual_pattern_no_match_decided:deny", 1000)
+	r.RequireAtLeast("qual_pattern_no_match_decided:mysql", 2500)
+	r.RequireAtLeast("qual_pattern_no_match_decided:postgresql", 2000)
 	r.RequireSetAtLeast("qual_pattern_decided_relations", 20)
-	r.RequireAtLeast("qual_table_rule_match_decided:allow", 50)
-	r.RequireAtLeast("qual_table_rule_match_decided:deny", 50)
-	r.RequireAtLeast("qual_table_rule_no_match_decided:allow", 100)
-	r.RequireAtLeast("qual_query_rule_configs", 500)
-	r.RequireAtLeast("qual_chain_configs", 100)
+	r.RequireAtLeast("qual_table_rule_match_decided:allow", 100)
+	r.RequireAtLeast("qual_table_rule_match_decided:deny", 250)
+	r.RequireAtLeast("qual_table_rule_no_match_decided:allow", 800)
+	r.RequireAtLeast("qual_table_rule_no_match_decided:deny", 150)
+	r.RequireAtLeast("qual_query_rule_configs", 1000)
+	r.RequireAtLeast("qual_chain_configs", 150)
 }
